@@ -221,12 +221,20 @@ def counts_of(g):
 
 def shares_store(a, b):
     """do two Grid objects share backing arrays (public API only)"""
+    names = ["node_lon", "node_lat", "face_node_connectivity"]
     try:
-        for nm in ("node_lon", "node_lat", "face_node_connectivity"):
-            if np.shares_memory(getattr(a, nm).values, getattr(b, nm).values):
-                return True
+        # every coordinate / connectivity / descriptor array both grids currently hold (public listing properties)
+        extra = (set(a.coordinates) | set(a.connectivity) | set(a.descriptors)) & \
+                (set(b.coordinates) | set(b.connectivity) | set(b.descriptors))
+        names += sorted(x for x in extra if x not in names)
     except Exception:
         pass
+    for nm in names:
+        try:
+            if np.shares_memory(np.asarray(getattr(a, nm).values), np.asarray(getattr(b, nm).values)):
+                return True
+        except Exception:
+            continue
     return False
 
 
@@ -417,6 +425,10 @@ def apply_x(desc, d, xr):
         return d.expand_dims(desc["dim"], axis=-1 if desc.get("last") else 0)
     if m == "copy":
         how = desc["how"]
+        x = None
+        if how.endswith("_data"):
+            # new VALUES of the same shape and dtype (deterministic: the old ones rolled by one)
+            x = np.roll(np.asarray(d.values), 1)
         if how == "copy_shallow":
             return d.copy(deep=False)
         if how == "copy.copy":
@@ -427,6 +439,12 @@ def apply_x(desc, d, xr):
             return d.copy()
         if how == "deepcopy":
             return pycopy.deepcopy(d)
+        if how == "copy_data":
+            return d.copy(data=x)
+        if how == "copy_deep_data":
+            return d.copy(deep=True, data=x)
+        if how == "copy_shallow_data":
+            return d.copy(deep=False, data=x)
     raise KeyError(m)
 
 
@@ -456,7 +474,10 @@ def apply_ux(desc, u, world):
 
 
 UX_OPS = ("ux_isel", "ux_subset", "integrate", "gradient", "difference", "topo", "remap", "get_dual")
-DEEP = ("copy_deep", "copy_default", "deepcopy")
+# the public ways of copying, in the order of `UxdaAlgebra.CopyApi` (the Lean model says which are deep: `C10.copydeep`)
+COPY_APIS = ["copy_default", "copy_deep", "copy_shallow", "copy_data", "copy_deep_data", "copy_shallow_data", "copy.copy",
+             "deepcopy"]
+DEEP = set()   # filled from the Lean model when the run starts (Env.__init__)
 
 
 def method_name(desc):
@@ -519,7 +540,7 @@ def model_op(desc, pre_dims, post_dims, extra):
         d = desc["dim"]
         return f"{8 if desc['how'] == 'new' else 7} {dim_code(d) - 3} {post[d]}"
     if m == "copy":
-        return f"9 {1 if desc['how'] in DEEP else 0} {1 if extra.get('fresh') else 0}"
+        return f"18 {COPY_APIS.index(desc['how'])} {1 if extra.get('fresh') else 0}"
     if m == "expand_dims":
         return f"17 {dim_code(desc['dim']) - 3} {1 if desc.get('last') else 0}"
     if m in ("ux_isel", "ux_subset"):
@@ -580,6 +601,11 @@ class Env:
         self.table = {}          # kind -> observed path
         self.variants = {}       # "kind:variant" -> "path (detail)"
         self.ux_raises = {}
+        flags = common.Tok(ctx.driver.ask("C10.copydeep")).ints()
+        DEEP.clear()
+        DEEP.update(a for a, f in zip(COPY_APIS, flags) if f == 1)
+        if len(flags) != len(COPY_APIS):
+            raise RuntimeError("copy API table of the Lean model and of the harness differ")
 
     def close(self):
         self.tr.uninstall()
@@ -724,6 +750,8 @@ def run_program(env, inp, out, tag="gen", chooser=None, depth=0):
         ctx.case(key, nontrivial=len(done) > 0 or is_ux or k in ("indexGrid", "concat", "reduce", "transpose"),
                  sample=dict(here, observed=canon_state(post), path=path) if (len(done) == 2 and len(ctx.samples) < 3) else None)
         ctx.hit("op:" + name)
+        if m == "copy":
+            ctx.hit("copy-api:" + desc["how"] + (":deep" if desc["how"] in DEEP else ":shallow"))
         ctx.hit("path:" + ("explicit-UxDataArray(...)" if is_ux else path))
         ctx.hit("depth:%d" % steps)
         ctx.hit("dtype:" + str(u.dtype))
@@ -799,11 +827,12 @@ def run_program(env, inp, out, tag="gen", chooser=None, depth=0):
                 what = f"{name} returns an array attached to a different grid object"
             elif c0 == "deep_copy_equal_independent":
                 if post["grid"] == state["grid"] or post["grid"] < len(state["heap"]):
-                    sig = "C10/op=deepcopy/same-grid-object"
-                    what = "a deep copy is attached to a grid OBJECT that existed before the copy"
+                    sig = f"C10/op=deepcopy/api={desc['how']}/same-grid-object"
+                    what = (f"the deep copy {desc['how']} (deep per UxdaAlgebra.CopyApi.deep) is attached to a grid OBJECT that "
+                            "existed before the copy instead of an equal, independent one")
                 elif post["heap"][post["grid"]][0] != state["heap"][state["grid"]][0]:
-                    sig = "C10/op=deepcopy/grid-counts-differ"
-                    what = "a deep copy's grid has other element counts than the original"
+                    sig = f"C10/op=deepcopy/api={desc['how']}/grid-counts-differ"
+                    what = f"the deep copy {desc['how']}: its grid has other element counts than the original"
                 else:
                     sig = "C10/op=deepcopy/grid-shares-store"
                     what = ("a deep copy's grid is a new Grid object that shares its backing arrays (Grid._ds) with the "
@@ -999,7 +1028,7 @@ def candidates(rng, t, state, world_counts, closed, derived, heap_n):
         out.append(dict(m="concat", how="new", dim=free[0], n=rng.choice([2, 3])))
     if free:
         out += [dict(m="expand_dims", dim=free[0], last=True), dict(m="expand_dims", dim=free[0], last=rng.random() < 0.5)]
-    out += [dict(m="copy", how=h) for h in ("copy_shallow", "copy.copy", "copy_deep", "copy_default", "deepcopy")]
+    out += [dict(m="copy", how=h) for h in COPY_APIS]
     # ---- uxarray's own operations (only where the model says they are defined: one grid dimension, last)
     if state["isUx"] and state["grid"] >= 0 and len(gdims) == 1:
         g = state["grid"]
@@ -1191,6 +1220,25 @@ def layouts(env, rng, base, wc):
     return progs
 
 
+def copy_chains(env, rng, base, wc):
+    """every way of copying, after 0, 1 and 2 other operations (incl. uxarray's own), for every centring"""
+    progs = []
+    prefixes = [[], [dict(m="arith", f="add1")], [dict(m="arith", f="add1"), dict(m="transpose", how="T")],
+                [dict(m="index", how="isel_kw", dim="t", idx=0), dict(m="copy", how="copy_shallow")],
+                [dict(m="ux_isel", dim="n_face", idx=[0, 1]), dict(m="arith", f="rmul2")]]
+    for centre in ("n_face", "n_node", "n_edge"):
+        for gid in (0, 1):
+            sp = gen_start(rng, wc, gid, centre=centre, dtype=rng.choice(["float64", "int32", "bool"]), gcoord=False,
+                           lead=[["t", 3]])
+            for pre in prefixes:
+                for api in COPY_APIS:
+                    progs.append(dict(base, start=sp, program=pre + [dict(m="copy", how=api)]))
+            # a copy of a copy
+            progs.append(dict(base, start=sp, program=[dict(m="copy", how="copy_data"), dict(m="copy", how="copy_deep_data"),
+                                                       dict(m="copy", how="deepcopy")]))
+    return progs
+
+
 def run(ctx):
     ctx.rule = ("3 grids per run (closed / partial / mixed, from harness/meshes) × start arrays (face-, node-, edge-centred, 0..2 leading "
                 "dims, index / non-index / scalar / grid-dimension coordinates, float64/float32/int64/int32/bool, NaNs) × [one directed "
@@ -1202,7 +1250,10 @@ def run(ctx):
     ctx.assumptions = [
         "which constructor path a public xarray method takes is OBSERVED per run (table in the evidence), not proved",
         "values/dtype/dims are compared with the same program on a plain xarray.DataArray (NumPy equality): differential test",
-        "grid independence is observed through np.shares_memory on node_lon/node_lat/face_node_connectivity of the two Grid objects",
+        "grid independence is observed through np.shares_memory on every coordinate / connectivity / descriptor array both "
+        "Grid objects hold (node_lon, node_lat, face_node_connectivity always)",
+        "all 8 public ways of copying are generated (copy(), copy(deep=True|False), copy(data=x), copy(deep=True|False, data=x), "
+        "copy.copy, copy.deepcopy); WHICH are deep is the Lean model's CopyApi.deep (asked from the driver), `data=` is not",
         "UxDataset half of the anchors (core/dataset.py) cannot be exercised: the installed xarray rejects Dataset(Dataset)",
         "isel on a grid dimension and subset.nearest_neighbor are generated for EVERY layout (element dimension last or not: after "
         "transpose / expand_dims / concat+transpose), their result is judged by the Lean step spec (by-name clause), values are "
@@ -1237,6 +1288,8 @@ def run(ctx):
                 run_program(env, inp, out, tag="directed")
             for inp in layouts(env, rng, base, wc):
                 run_program(env, inp, out, tag="layout")
+            for inp in copy_chains(env, rng, base, wc):
+                run_program(env, inp, out, tag="copies")
             nprog = ctx.n(150, 1500)
             chooser = make_chooser(env, rng, 3)
             for _ in range(nprog):
